@@ -82,11 +82,11 @@ func (c *Ctx) sptCallKind(f *Func, cs *CallSite) string {
 
 func init() {
 	register("C01", propMeta{
-		Explanation: "Decides the commit-driver and commit-point discipline of the two-phase commit: (R1) SinglePhaseTransaction.Commit returns nil only after SOP Phase1Commit, every participant's Phase1Commit and SOP Phase2Commit returned nil, and every failure path passes Rollback; (R2) the only all-or-nothing registry update (UpdateNoLocks with allOrNothing=true) in the workspace is the commit point in phase2Commit, and phase 1 never flips a handle's active id in the registry; (R3) after the commit point phase2Commit cannot return an error and `committed` is set only on its nil path; (R4) a failed phase1Commit/phase2Commit always passes rollback and returns non-nil; (R5) errors of storage-interface calls reachable from phase1Commit are propagated; (R6) every successful item action is recorded where the nothing-to-commit guard looks.",
+		Explanation:  "Decides the commit-driver and commit-point discipline of the two-phase commit: (R1) SinglePhaseTransaction.Commit returns nil only after SOP Phase1Commit, every participant's Phase1Commit and SOP Phase2Commit returned nil, and every failure path passes Rollback; (R2) the only all-or-nothing registry update (UpdateNoLocks with allOrNothing=true) in the workspace is the commit point in phase2Commit, and phase 1 never flips a handle's active id in the registry; (R3) after the commit point phase2Commit cannot return an error and `committed` is set only on its nil path; (R4) a failed phase1Commit/phase2Commit always passes rollback and returns non-nil; (R5) errors of storage-interface calls reachable from phase1Commit are propagated; (R6) every successful item action is recorded where the nothing-to-commit guard looks.",
 		DoesNotCover: "Visibility of the committed values themselves (that the blobs/handles written hold the right bytes) and behaviour under concrete fault schedules are not decided; only the control-flow and call-graph shape every such execution must follow.",
 	}, runC01)
 	register("C16", propMeta{
-		Explanation: "All control-flow paths of SinglePhaseTransaction.Commit, Rollback and Begin are enumerated on the CFG: a participant's Phase2Commit is reachable only after SOP Phase1Commit, the full participant Phase1Commit loop and SOP Phase2Commit all took their success edges; every failure edge passes t.Rollback before returning; Rollback calls SOP's Rollback and then iterates over all participants with no early exit; AddPhasedTransaction is the only writer of the participant list.",
+		Explanation:  "All control-flow paths of SinglePhaseTransaction.Commit, Rollback and Begin are enumerated on the CFG: a participant's Phase2Commit is reachable only after SOP Phase1Commit, the full participant Phase1Commit loop and SOP Phase2Commit all took their success edges; every failure edge passes t.Rollback before returning; Rollback calls SOP's Rollback and then iterates over all participants with no early exit; AddPhasedTransaction is the only writer of the participant list.",
 		DoesNotCover: "Behaviour of the participants themselves, and what SOP's own Rollback restores (C07).",
 	}, runC16)
 }
